@@ -19,7 +19,7 @@ from ..core import AnalysisError, Func, Repo, dotted, norm, parents
 from ..cfg import CFG
 from ..owners import writers
 from ..report import Check
-from ..util import call_name, calls_in
+from ..util import call_name, calls_in, names_assigned_from, is_name_in, values_of
 
 MV = 'pydoctor.astbuilder.ModuleVistor'
 
@@ -104,8 +104,11 @@ def run(repo: Repo, chk: Check, thorough: bool = False) -> None:
            '_handleFunctionDef(node, is_async=False/True)' if ok else f'{cf} vs {ca}', vf.loc)
     for q in (f'{MV}._handleFunctionDef', f'{MV}.visit_ClassDef'):
         f = repo.func(q)
+        cur = names_assigned_from(f, lambda v: norm(v) == 'self.builder.current')
         skips = [n for n in f.walk() if isinstance(n, ast.Raise) and 'SkipNode' in norm(n) and
-                 any(isinstance(p, ast.If) and 'isinstance(parent, model.Function)' in norm(p.test) for p in parents(n))]
+                 any(isinstance(p, ast.If) and isinstance(p.test, ast.Call) and call_name(p.test) == 'isinstance' and
+                     (is_name_in(p.test.args[0], cur) or norm(p.test.args[0]) == 'self.builder.current') and
+                     norm(p.test.args[1]) == 'model.Function' for p in parents(n))]
         chk.ob('R03.2', f'{q} :: definitions nested in functions are skipped', bool(skips),
                'if isinstance(parent, model.Function): raise SkipNode' if skips else 'nested definitions are no longer skipped', f.loc)
     chk.require('R03.2', 5)
